@@ -533,7 +533,8 @@ impl<R: Round> Context<R> {
             } else {
                 let num = Repr::new(repr.significand, 0);
                 let den = Repr::new(Repr::<B>::BASE.pow(-repr.exponent as usize).into(), 0);
-                self.repr_div(num, den)
+                // the significand may hold more digits than the target precision asks for
+                self.repr_div_shrunk(num, den)
             }
         } else {
             // if the exponent is large, then we first estimate the result exponent as floor(exponent * log(B) / log(NewB)),
